@@ -190,6 +190,7 @@ func HarnessPongsAfterReconnect() {
 	verif.Assert(e2 == nil && v == 2, "call-after-reconnect")
 	verif.Quiesce()
 	verif.Assert(verif.PongsIgnored() == 0, "pong-activity-renews-the-read-deadline-after-reconnect")
+	verif.Assert(verif.ReadsWithoutDeadline() == 0, "never-waits-for-a-message-without-a-read-deadline")
 	closer()
 	verif.Quiesce()
 	verif.Reach("pongs-after-reconnect-done")
@@ -257,6 +258,11 @@ func HarnessBriefStall() {
 	verif.Quiesce()
 	verif.Assert(ret == 1, "call-issued-during-a-brief-stall-returns")
 	verif.Assert(cerr == nil && v == 7, "call-issued-during-a-brief-stall-gets-its-result")
+	// and the connection is as good as new afterwards
+	ret2 := 0
+	go func() { v, cerr = c.Echo(context.Background(), 8); ret2++ }()
+	verif.Quiesce()
+	verif.Assert(ret2 == 1 && cerr == nil && v == 8, "call-after-a-brief-stall-gets-its-result")
 	closer()
 	verif.Quiesce()
 	verif.Reach("brief-stall-done")
